@@ -13,6 +13,7 @@ import Mfi.Lemmas.FxL
 import Mfi.Lemmas.ResL
 import Mfi.Lemmas.SkelL
 import Mfi.Props.C04
+import Mfi.Lemmas.ConstL
 
 namespace Mfi.Props.C05
 open Mfi Mfi.Fx Mfi.Risk Mfi.Gen Mfi.Props.C09 Mfi.Props.C04
@@ -288,5 +289,10 @@ theorem liquidate_uses_the_amounts {irA irL : Interest.IrCalc} {now : Int} {a0 l
 example : ∃ r, liquidationAmounts 1000000 (10 * ONE) (2 * ONE) 6 6 = .ok r ∧ r.final < r.liquidator ∧
     4874999 * ONE < r.liquidator ∧ r.liquidator < 4875001 * ONE ∧ 4749999 * ONE < r.final ∧ r.final < 4750001 * ONE :=
   ⟨_, by rfl, by decide, by decide, by decide, by decide, by decide⟩
+
+/-- the liquidation amounts (calc_value / calc_amount) divide and multiply by rows of the scaling table: that table is exactly the powers of ten 10^0 .. 10^23 as I80F48 (regenerated from the real
+    constants on every run; the model computes its own powers of ten and is diffed against the real functions across
+    ALL 24 decimals) -/
+theorem scaling_table_is_powers_of_ten : Mfi.Gen.EXP_10_I80F48 = Mfi.Fx.POW10FX := Mfi.ConstL.exp10_table_exact
 
 end Mfi.Props.C05
